@@ -141,6 +141,7 @@ def run_case(ctx, case):
     return None
 
 
+TINY_FNS = ['sin', 'cos', 'sinh', 'cosh', 'exp', 'expm1', 'log1p', 'arctan', 'arcsinh', 'arcsin', 'erf', 'erfi', 'square', 'negative', 'exp2']
 SCALED_FNS = ['sqrt', 'log', 'log2', 'log10', 'log1p', 'reciprocal']
 
 
@@ -381,6 +382,17 @@ def run(ctx):
                 case = {'fn': name, 'n': n_, 'x': float(2.0 ** k_), 'scaled': True}
                 ctx.evaluations += 1
                 ctx.count('fn=' + name, 'scaled-point')
+                f = scaled_point_fails(ctx, case)
+                if f:
+                    ctx.report(case, 'failure', f)
+    # tiny non-zero points (powers of two): where the n-th derivative is itself tiny (odd functions at even orders, ...) it is
+    # returned to rounding RELATIVE to its size -- for the functions whose closed forms involve no cancellation there
+    for name in [n_ for n_ in TINY_FNS if n_ in T]:
+        for x_ in (2.0 ** -28, -(2.0 ** -33), 2.0 ** -39, 2.0 ** -66):
+            for n_ in (1, 2, 3, 4, 5, 6):
+                case = {'fn': name, 'n': n_, 'x': float(x_), 'scaled': True}
+                ctx.evaluations += 1
+                ctx.count('fn=' + name, 'tiny-point')
                 f = scaled_point_fails(ctx, case)
                 if f:
                     ctx.report(case, 'failure', f)
